@@ -17,6 +17,9 @@ Overlay(parent, own) == [k \in DOMAIN parent \cup DOMAIN own |-> IF k \in DOMAIN
 Par(chain, i) == IF "par" \in DOMAIN chain[i] THEN chain[i].par ELSE i - 1
 RECURSIVE Stored(_, _)
 Stored(chain, i) == IF Par(chain, i) = 0 THEN Own(chain, i) ELSE Overlay(Stored(chain, Par(chain, i)), Own(chain, i))
+\* a level of kind "pass" hands on the partition object it got from its parent level, unchanged (no own keys)
+RECURSIVE EffOwn(_, _)
+EffOwn(chain, i) == IF chain[i].kind = "pass" /\ Par(chain, i) # 0 THEN EffOwn(chain, Par(chain, i)) ELSE SeqToSet(chain[i].own)
 RECURSIVE Ancestors(_, _)
 Ancestors(chain, i) == IF i = 0 THEN {} ELSE {i} \cup Ancestors(chain, Par(chain, i))
 SortedKeys(S) == LET RECURSIVE F(_)
@@ -34,7 +37,7 @@ Clauses(st, e) ==
   LET s == Stored(st.chain, e.level) IN <<
     <<"partition_usable_without_error", e.exc = "">>,
     <<"key_set_is_parent_keys_plus_own_keys", e.exc = "" => e.keys = SortedKeys(DOMAIN s)>>,
-    <<"own_keys_listed_without_parent", e.exc = "" => e.own = SortedKeys(SeqToSet(st.chain[e.level].own))>>,
+    <<"own_keys_listed_without_parent", e.exc = "" => e.own = SortedKeys(EffOwn(st.chain, e.level))>>,
     <<"each_key_loads_the_overlaid_value",
         e.exc = "" => /\ Len(e.vals) = Cardinality(DOMAIN s)
                       /\ \A i \in 1..Len(e.vals) : e.vals[i][1] \in DOMAIN s /\ s[e.vals[i][1]] = <<e.vals[i][1], e.vals[i][2]>> >>,
